@@ -1,5 +1,5 @@
 #!/bin/bash
-# tools/sweep.sh <tier> <seed...>   runs every implemented check for each seed (no evidence rewritten); prints verdict lines.
+# tools/sweep.sh <tier> <seed...>   runs every implemented check (or those named in $HXMON_ONLY) for each seed (no evidence rewritten); prints verdict lines.
 cd "$(dirname "$0")/.."
 tier=${1:-quick}; shift
 seeds=${@:-0 1 2 3 4}
@@ -7,6 +7,7 @@ seeds=${@:-0 1 2 3 4}
 for s in $seeds; do
   for f in hxmon/checks/c[0-9][0-9].py; do
     id=$(basename $f .py | tr a-z A-Z)
+    if [ -n "$HXMON_ONLY" ] && ! echo " $HXMON_ONLY " | grep -q " $id "; then continue; fi
     out=$(VERIF_SEED=$s HXMON_NO_EVIDENCE=1 ./check $id --tier $tier 2>&1)
     rc=$?
     echo "seed=$s rc=$rc $(echo "$out" | tail -1)"
